@@ -129,11 +129,14 @@ SigBytes(s) == FromHex(OnlyHex(s))
 (*            (constructor, file load, signapp): hash, iter, sigs; ok;     *)
 (*            what it made: o_hash o_iter o_msg o_wrap o_digest o_sigs;    *)
 (*            one Keccak-256 point: orc_of orc_is                          *)
-(*  sign      signapp added a signature: via ("key"|"eth"|"manual"),       *)
-(*            given (manual: the text given), ok, sig (the one added),     *)
-(*            file = [hash, iter, sigs] as found on disk afterwards,       *)
-(*            verifies ("t"|"f"|"na": ECDSA-verifies for orc_is under the  *)
-(*            signing key)                                                 *)
+(*  sign      one signapp invocation on the file at -o: via ("key" | "eth" | *)
+(*            "manual" | "message"), args = [given, hash (sha256 of the    *)
+(*            app named by -a, as text), iter (the -i text)], given (-g),  *)
+(*            ok, sig (the one added), exists / file = [hash, iter, sigs]  *)
+(*            as found on disk afterwards, verifies ("t"|"f"|"na": the     *)
+(*            added signature ECDSA-verifies under the signing key for     *)
+(*            Keccak256(ver_of)), ver_of (the text the verifier hashed:    *)
+(*            the message for the version the file names afterwards)       *)
 (*  roundtrip save; load; save: ok, after = [hash, iter, sigs], f1, f2     *)
 (*  apdu      one device exchange: apdu, sw, resp                          *)
 (*  outcome   the authorize command ended: authorized ("t"|"f"), exc =     *)
@@ -155,6 +158,25 @@ DocumentedErrors == {"HSM2DongleError", "HSM2DongleErrorResult", "HSM2DongleTime
 IsAuthApdu(e) == Len(e.apdu) >= 2 /\ e.apdu[2] = SIGNER_AUTH
 Success(e)    == e.sw = SW_OK /\ Len(e.resp) >= 4 /\ e.resp[4] = 2
 
+\* signapp steps: the authorization file at -o before the step is what `obs` holds (st = "built")
+\* or is absent; `e.exists` / `e.file` is what is on disk after it
+Exists(o) == o.st = "built"
+\* (a file written by hand may spell its hash in upper case and its iteration as a string, which the
+\* reader of the disk reports as -7: only a tool-written file is normalised)
+Untouched(o, e) == IF Exists(o)
+                   THEN /\ e.exists = "t" /\ Lower(e.file.hash) = ToHex(o.h) /\ e.file.sigs = o.sigs
+                        /\ e.file.iter \in {o.n, -7}
+                   ELSE e.exists = "f"
+ArgStatus(e, L) == IF e.args.given = "f" THEN "none"
+                   ELSE IF ~HashOK([kind |-> "str", s |-> e.args.hash], L) THEN "machinery"
+                   ELSE IterStatus(e.args.iter)
+\* the signature added verifies, under the signing key, for Keccak256(AuthMsg(h, n)); `ver_of` is the
+\* text the independent verifier hashed (it must be the spec's, else the oracle is broken)
+SignedFor(e, h, n) == IF SigStatus(e.sig) = "bad" THEN "SignatureWellFormed"
+                      ELSE IF e.ver_of # AuthMsg(h, n) THEN "OracleText"
+                      ELSE IF e.verifies # "t" THEN "SignatureVerifies"
+                      ELSE ""
+
 MustRefuse(e, L) == \/ ~HashOK(e.hash, L)
                     \/ IterStatus(e.iter) = "bad"
                     \/ \E i \in 1..Len(e.sigs) : SigStatus(e.sigs[i]) = "bad"
@@ -170,13 +192,52 @@ Observe(o, e, L) ==
                              !.sigs = e.sigs, !.digest = e.orc_is]
         ELSE [InitObs EXCEPT !.st = "refused"]
     ELSE IF e.k = "sign" THEN
-        IF e.ok = "t" THEN [o EXCEPT !.sigs = e.file.sigs] ELSE o
+        IF e.ok = "t" /\ e.exists = "t"
+        THEN [o EXCEPT !.st = "built", !.h = FromHex(OnlyHex(e.file.hash)), !.n = e.file.iter,
+                       !.sigs = e.file.sigs]
+        ELSE o
     ELSE IF e.k = "apdu" /\ IsAuthApdu(e) THEN
         [o EXCEPT !.sent = @ + 1,
                   !.sigver = IF o.sent = 0 THEN (IF e.sw = SW_OK THEN "ok" ELSE "err") ELSE @,
                   !.err = @ \/ (o.sent > 0 /\ e.sw # SW_OK),
                   !.done = @ \/ (o.sent > 0 /\ Success(e))]
     ELSE o
+
+\* one signapp invocation
+JudgeSign(o, e, L) ==
+    IF e.via = "manual" THEN
+        \* signapp manual works on an existing file only and never looks at -a / -i
+        IF ~Exists(o) THEN (IF e.ok = "f" /\ e.exists = "f" THEN "" ELSE "SignatureAdded")
+        ELSE IF SigStatus(e.given) = "bad" THEN
+             (IF e.ok = "f" /\ Untouched(o, e) THEN "" ELSE "RefusesMalformed")
+        ELSE IF e.ok = "f" THEN
+             (IF SigStatus(e.given) = "free" /\ Untouched(o, e) THEN "" ELSE "SignatureAdded")
+        ELSE IF ~(e.exists = "t" /\ e.file.hash = ToHex(o.h) /\ e.file.iter = o.n)
+             THEN "FileNamesItsVersion"
+        ELSE IF e.file.sigs # Append(o.sigs, e.sig) \/ e.sig # e.given THEN "SignatureAdded"
+        ELSE ""
+    ELSE IF e.via \in {"key", "eth"} /\ Exists(o) THEN
+        \* an existing file rules: it keeps naming its own (hash, iteration) whatever -a / -i say,
+        \* and the new signature is over the digest for *that* version
+        IF e.ok = "f" THEN "SignatureAdded"
+        ELSE IF ~(e.exists = "t" /\ e.file.hash = ToHex(o.h) /\ e.file.iter = o.n)
+             THEN "FileNamesItsVersion"
+        ELSE IF e.file.sigs # Append(o.sigs, e.sig) THEN "SignatureAdded"
+        ELSE SignedFor(e, o.h, o.n)
+    ELSE
+        \* signapp message, and key / eth without a file: the version comes from -a / -i
+        LET st == ArgStatus(e, L) IN
+        IF st = "machinery" THEN "OracleText"
+        ELSE IF st \in {"none", "bad"} THEN
+             (IF e.ok = "f" /\ Untouched(o, e) THEN "" ELSE "RefusesMalformed")
+        ELSE IF e.ok = "f" THEN
+             (IF st = "ok" THEN "AcceptsWellFormed" ELSE IF Untouched(o, e) THEN "" ELSE "SignatureAdded")
+        ELSE LET n == IF st = "ok" THEN IterValue(e.args.iter) ELSE e.file.iter IN
+             IF ~(e.exists = "t" /\ e.file.hash = Lower(e.args.hash) /\ e.file.iter = n /\ InRange(n))
+             THEN "FileNamesItsVersion"
+             ELSE IF e.via = "message" THEN (IF e.file.sigs = <<>> THEN "" ELSE "SignatureAdded")
+             ELSE IF e.file.sigs # <<e.sig>> THEN "SignatureAdded"
+             ELSE SignedFor(e, FromHex(e.args.hash), n)
 
 \* first clause of C17 broken by event e in observable state o ("" if none)
 Judge(o, e, L) ==
@@ -192,18 +253,7 @@ Judge(o, e, L) ==
              ELSE IF e.orc_of # AuthMsg(h, n) THEN "OracleText"        \* machinery, not the code
              ELSE IF e.o_digest # e.orc_is THEN "Keccak256Digest"
              ELSE ""
-    ELSE IF e.k = "sign" THEN
-        IF o.st # "built" THEN "SignWithoutAuthorization"
-        ELSE IF e.via = "manual" /\ SigStatus(e.given) = "bad" THEN
-             (IF e.ok = "f" /\ e.file.sigs = o.sigs THEN "" ELSE "RefusesMalformed")
-        ELSE IF e.ok = "f" THEN
-             (IF e.via = "manual" /\ SigStatus(e.given) = "free" THEN "" ELSE "SignatureAdded")
-        ELSE IF e.file.hash # ToHex(o.h) \/ e.file.iter # o.n THEN "SignatureAdded"
-        ELSE IF e.file.sigs # Append(o.sigs, e.sig) THEN "SignatureAdded"
-        ELSE IF e.via = "manual" THEN (IF e.sig = e.given THEN "" ELSE "SignatureAdded")
-        ELSE IF SigStatus(e.sig) = "bad" THEN "SignatureWellFormed"
-        ELSE IF e.verifies # "t" THEN "SignatureVerifies"
-        ELSE ""
+    ELSE IF e.k = "sign" THEN JudgeSign(o, e, L)
     ELSE IF e.k = "roundtrip" THEN
         IF o.st # "built" THEN "RoundTripWithoutAuthorization"
         ELSE IF e.ok # "t" THEN "RoundTrip"
